@@ -29,6 +29,10 @@ for f in UNARY:
     CALLS.append((f + "/noncontig", "F.%s(xt)" % f))
     if f not in ("sinc",):
         CALLS.append((f + "/out+where", "F.%s(x, out=O, where=M)" % f))
+# the mask given as a tensor (mygrad.typing.Mask lists Tensor)
+CALLS.append(("exp/out+where=tensor", "F.exp(x, out=O, where=MT)"))
+CALLS.append(("multiply/out+where=tensor", "F.multiply(x, y, out=O, where=MT)"))
+CALLS.append(("func-on-tensor/np.add/where=tensor", "np.add(x, z, out=O, where=MT)"))
 CALLS.append(("abs/empty", "F.abs(e)"))
 for f in BINARY:
     CALLS.append((f, "F.%s(x, y)" % f))
@@ -232,13 +236,13 @@ rng = np.random.RandomState(2); R = ops(False)
 bad = []
 want = None
 try:
-    env = {k: v.copy() for k, v in R.items()}; env["xt"] = R["xt"].T.copy().T; env.update(F=np, np=np, mg=mg, M=np.array([[True, False, True], [False, False, True]]))
+    env = {k: v.copy() for k, v in R.items()}; env["xt"] = R["xt"].T.copy().T; env.update(F=np, np=np, mg=mg, M=np.array([[True, False, True], [False, False, True]])); env["MT"] = env["M"]
     want = eval(SRC.replace("F.linalg", "np.linalg"), env)
 except Exception as e:
     print("numpy raised", type(e).__name__, e); print("NOT-REPRODUCED"); sys.exit(0)
 for track in (True, False):
     env = {k: (mg.Tensor(v) if k not in ("A", "O") else v.copy()) for k, v in R.items()}; env["xt"] = mg.Tensor(R["xt"].T.copy().T)
-    env.update(F=mg, np=np, mg=mg, M=np.array([[True, False, True], [False, False, True]]))
+    env.update(F=mg, np=np, mg=mg, M=np.array([[True, False, True], [False, False, True]])); env["MT"] = mg.Tensor(env["M"])
     try:
         if track: got = eval(SRC, env)
         else:
